@@ -17,6 +17,12 @@ CHECKS = {
  "C03": dict(text="Chunking.tla models a reader that moves n bytes at a time into a window consumed by the JsonText automaton; TLC checks that Refill is a stuttering step (the outcome is a function of the byte sequence) and enumerates every composition of lengths 1..8, which the harness replays as Read sizes. For every input (JsonText transition cover, TLC-enumerated literals, random JSON/SEN/multi-document texts with mutations, documents aligned on the 4096/8192-byte refill) all front-ends and chunkings are run and the trace specification decides agreement: within the JSON family (oj.Parse, oj.ParseReader, tokenizer+Builder, gen.Parser+Simplify), within the SEN family, between the two on input JsonText accepts, and for the delivered document sequences in callback/func/channel mode; numbers are compared as exact decimals (with the rounding freedom C02 grants).",
              note="Trusted: the harness projection (absval) and grouping of identical observations; equality itself is decided by TLC. Known systemic SEN defects (tokenizer grammar gap, bare tokens at refill boundaries) are listed as known findings with family-wide patterns, so chunked SEN reads and the SEN tokenizer are not protected; JSON-family agreement, SEN whole-buffer agreement and SEN-vs-JSON on valid JSON are strict.",
              tech="TLA+ spec (Chunking over JsonText) + TLC-enumerated chunkings replayed into the readers + TLC trace validation of agreement", ref="6/C03"),
+ "C12": dict(text="TLC checks the operator tables of Script.tla (every operator x 24 x 24 operand values) against ten laws implied by the statement; TLC then enumerates the cell matrix operator x left operand (form, kind, value) x right operand and the harness runs each script, built through the jp constructors and parsed from text, through 11 routes (Script.Match, Get/First/Has/GetNodes with [?...] on []any, map and gen data, Filter.Eval) plus seeded && || ! nesting re-parsed from String(); TLC evaluates Script!Expect on every logged (AST, element, root) and judges each recorded outcome, panics included.",
+             note="Trusted: Script.tla as the reading of the operator documentation (cells the documentation leaves open are ANY: only no-panic and the ==/!= complement are required there), Go regexp facts for 8 patterns x 10 strings, floats restricted to small dyadic rationals. Value universe is small (2-4 values per kind); nesting deeper than 2 is sampled.",
+             tech="TLA+ spec (Script) + TLC design check + TLC-generated cell matrix replayed into jp + TLC trace validation", ref="6/C12"),
+ "C14": dict(text="TLC checks on the PathText model that Parse(Print(a)) evaluates like a for every equation tree to depth 2 under the safe parenthesisation rule and finds the counterexamples for the two rules the code uses; expressions and equations built through the public constructors (every fragment kind x key byte class x position, every (parent, child, side) operator triple, constants of every kind) are printed, parsed, printed again and evaluated; TLC (TraceC14) requires no parse error, identical print, identical evaluation and, for equations, agreement with Script!Expect.",
+             note="Trusted: Script.tla for equation values; path evaluation is only compared original vs re-parsed. Expression length <= 4, one document family. Known-finding patterns grouped by 10 root causes (triage per root cause); the descent-related patterns are broad.",
+             tech="TLA+ spec (PathText + Script) + TLC design check with expected counterexamples + TLC trace validation of recorded round trips", ref="6/C14"),
 }
 NA_REASON = "check not built yet in this round; planned with the TLA+ specification named in DESIGN.md section 6 (no different technique is substituted)"
 
